@@ -263,8 +263,10 @@ fn count_hard(trace: &str) -> u64 {
     trace.lines().filter(|l| (l.starts_with("W ") || l.starts_with("R ")) && l.contains("-> E") && !l.ends_with("-> E4")).count() as u64
 }
 
-fn stage_shim(t: &Tuple, stage: usize) -> Option<ShimCfg> {
-    Some(ShimCfg { seed: t.hash_seed.wrapping_add(stage as u64), plan: t.plans[stage].clone(), clock: None, junk: 0, budget: Some(3_000_000) })
+fn stage_shim(t: &Tuple, stage: usize, source_len: usize) -> Option<ShimCfg> {
+    // bounded liveness: the budget grows with the data (one byte per call is a legal delivery; the serialized AST of a program is
+    // well below 400 times its source)
+    Some(ShimCfg { seed: t.hash_seed.wrapping_add(stage as u64), plan: t.plans[stage].clone(), clock: None, junk: 0, budget: Some(3_000_000 + 400 * source_len as u64) })
 }
 
 fn count_faults(trace: &str) -> u64 {
@@ -289,7 +291,7 @@ pub fn run_staged(source: &str, t: &Tuple) -> Staged {
         c.program = Some("/bin/bash".into());
         let b = bin.to_str().unwrap().to_string();
         c.env = vec![("PARSER".into(), b.clone()), ("COMPILER".into(), b.clone()), ("INTERPRETER".into(), b), ("PATH".into(), "/usr/bin:/bin".into())];
-        c.shim = stage_shim(t, 2);
+        c.shim = stage_shim(t, 2, source.len());
         let r = run_child(&dir, &c);
         st.children += 4;
         // the stages are chained with &&; an output file is created (empty) before its stage can fail
@@ -332,7 +334,7 @@ pub fn run_staged(source: &str, t: &Tuple) -> Staged {
         Chan::StdoutPipe => c.stdout = Out::Pipe,
         _ => c.stdout = Out::Pipe,
     }
-    c.shim = stage_shim(t, 0);
+    c.shim = stage_shim(t, 0, source.len());
     let r = run_child(&dir, &c);
     st.children += 1;
     st.calls[0] = count_calls(&r.trace);
@@ -403,7 +405,7 @@ pub fn run_staged(source: &str, t: &Tuple) -> Staged {
     let mut c = Child::new(t.profile, &argv);
     if t.compile_stdin { c.stdin = In::File(ast_file.clone()); }
     if t.compile_out == Chan::StdoutFile { c.stdout = Out::File("redirected.bc".into()); }
-    c.shim = stage_shim(t, 1);
+    c.shim = stage_shim(t, 1, source.len());
     let r = run_child(&dir, &c);
     st.children += 1;
     st.calls[1] = count_calls(&r.trace);
@@ -447,7 +449,7 @@ pub fn run_staged(source: &str, t: &Tuple) -> Staged {
     };
     let mut c = if t.exec_stdin { Child::new(t.profile, &["execute"]) } else { Child::new(t.profile, &["execute", bc_file.as_str()]) };
     if t.exec_stdin { c.stdin = In::File(bc_file.clone()); }
-    c.shim = stage_shim(t, 2);
+    c.shim = stage_shim(t, 2, source.len());
     let r = run_child(&dir, &c);
     st.children += 1;
     st.calls[2] = count_calls(&r.trace);
@@ -853,7 +855,11 @@ fn exercise(name: &str, spec: &ProgSpec, rng: &mut Rng, n_tuples: usize, n_hard:
         t.parse_stdin = rng.coin(); // program on the wrapper's stdin instead of a file argument
         tuples.push(t);
     }
-    for t in tuples {
+    for mut t in tuples {
+        if source.len() > 50_000 {
+            // megabytes of AST delivered one byte per call cost minutes and prove nothing more than 64 bytes per call do
+            for p in t.plans.iter_mut() { for k in ["1", "2", "3", "7"] { *p = p.replace(&format!(":l:{};", k), ":l:64;"); if p.ends_with(&format!(":l:{}", k)) { let n = p.len() - k.len(); p.truncate(n); p.push_str("64"); } } }
+        }
         if !directs.iter().any(|(p, _)| *p == t.profile) {
             directs.push((t.profile, run_direct(&source, t.profile, 17)));
             out.children += 1;
